@@ -1038,4 +1038,151 @@ theorem toTextPos_units (y mo d h mi s : Int) (hy : 0 ≤ y) (hmo : 0 ≤ mo) (h
   rw [key]
   exact replaceDot_id _ (desig_no_dot _ _ _ _ (ofv_good y) (ofv_good mo) (ofv_good d) (tOf_good h mi s))
 
+/-! ### sign test, constructor -/
+
+theorem fnl_nonneg (vs : List Int) (h : ∀ v ∈ vs, 0 ≤ v) : fullyNegLoop vs false = false := by
+  induction vs with
+  | nil => rfl
+  | cons v vs ih =>
+    have hv := h v (by simp)
+    have := ih (fun x hx => h x (by simp [hx]))
+    simp only [fullyNegLoop]
+    split
+    · rfl
+    · rw [if_neg (by omega)]; exact this
+
+theorem fnl_nonpos (vs : List Int) (acc : Bool) (h : ∀ v ∈ vs, v ≤ 0) :
+    fullyNegLoop vs acc = (acc || vs.any (fun v => decide (v < 0))) := by
+  induction vs generalizing acc with
+  | nil => simp [fullyNegLoop]
+  | cons v vs ih =>
+    have hv := h v (by simp)
+    have := fun a => ih a (fun x hx => h x (by simp [hx]))
+    simp only [fullyNegLoop, List.any_cons]
+    rw [if_neg (by omega)]
+    by_cases hn : v < 0
+    · rw [if_pos hn, this]; simp [hn]
+    · rw [if_neg hn, this]; simp [hn]
+
+theorem mkDur_units (m : Mode) (a b c e f g : Int) : mkDur m a b 0 c e f g = .units a b c e f g := by
+  simp [mkDur]
+
+theorem mkDur_weeks (m : Mode) (w : Int) (hw : w ≠ 0) : mkDur m 0 0 w 0 0 0 0 = .weeks w := by
+  simp only [mkDur, hw, ne_eq, not_false_eq_true, and_self, ↓reduceIte, daysInWeek_eq, Int.zero_add]
+  congr 1
+  omega
+
+theorem dur_eq_refl (m : Mode) (d : Dur) : Dur.eq m d d = true := by
+  rw [dur_eq_iff]; exact ⟨rfl, rfl⟩
+
+/-! ### exactly representable integers -/
+
+/-- `n` is a binary64 value below the overflow threshold: `float(str(n)) == n`. -/
+def F64Exact (n : Nat) : Prop := n < f64Over ∧ f64Nat n = n
+
+theorem f64Exact_of_lt (n : Nat) (h : n < 2 ^ 53) : F64Exact n := by
+  refine ⟨?_, ?_⟩
+  · have : (2 : Nat) ^ 53 ≤ f64Over := by unfold f64Over; exact Nat.pow_le_pow_right (by decide) (by decide)
+    omega
+  · unfold f64Nat; rw [if_pos h]
+
+theorem fval_ofv (v : Int) (h : 0 ≤ v) (hx : F64Exact v.natAbs) : fval (ofv v) = v := by
+  unfold ofv
+  by_cases hv : v ≠ 0
+  · rw [if_pos hv]; simp only [fval, digitsVal_natDigits, hx.2]; omega
+  · rw [if_neg hv]; simp only [fval]; omega
+
+theorem fltOk_ofv (v : Int) (hx : F64Exact v.natAbs) : FltOk (ofv v) := by
+  intro ds e
+  unfold ofv at e
+  split at e
+  · injection e with e; rw [← e, digitsVal_natDigits]; exact hx.1
+  · cases e
+
+/-- Parsing the text of a non-negative unit-form duration under either sign factor. -/
+theorem parseBody_units (m : Mode) (sg : Int) (y mo d h mi s : Int) (hy : 0 ≤ y) (hmo : 0 ≤ mo) (hd : 0 ≤ d)
+    (hh : 0 ≤ h) (hmi : 0 ≤ mi) (hs : 0 ≤ s) (xh : F64Exact h.natAbs) (xmi : F64Exact mi.natAbs)
+    (xs : F64Exact s.natAbs) :
+    parseBody m sg (desig (ofv y) (ofv mo) (ofv d) (tOf h mi s)) =
+      .ok (.units (y * sg) (mo * sg) (d * sg) (h * sg) (mi * sg) (s * sg)) := by
+  have hb : FltOkT (tOf h mi s) := by
+    unfold tOf; split
+    · trivial
+    · exact ⟨fltOk_ofv h xh, fltOk_ofv mi xmi, fltOk_ofv s xs⟩
+  rw [parseBody_desig m sg _ _ _ _ (ofv_good y) (ofv_good mo) (ofv_good d) (tOf_good h mi s) hb,
+    mkDur_units, ival_ofv y hy, ival_ofv mo hmo, ival_ofv d hd]
+  have : tvals (tOf h mi s) = (h, mi, s) := by
+    unfold tOf; split
+    · rename_i hz; obtain ⟨rfl, rfl, rfl⟩ := hz; rfl
+    · simp only [tvals, fval_ofv h hh xh, fval_ofv mi hmi xmi, fval_ofv s hs xs]
+  rw [this]
+
+
+/-! ### `toText` by sign -/
+
+theorem toText_zero (d : Dur) (h : d.nonzero = false) : toText d = ['P', '0', 'Y'] := by
+  unfold toText; simp [h]
+
+theorem toText_units_pos (y mo d h mi s : Int) (hy : 0 ≤ y) (hmo : 0 ≤ mo) (hd : 0 ≤ d) (hh : 0 ≤ h)
+    (hmi : 0 ≤ mi) (hs : 0 ≤ s) (hnz : (Dur.units y mo d h mi s).nonzero = true) :
+    toText (.units y mo d h mi s) = desig (ofv y) (ofv mo) (ofv d) (tOf h mi s) := by
+  unfold toText
+  have : fullyNegLoop (comps (.units y mo d h mi s)) false = false := by
+    apply fnl_nonneg
+    intro v hv
+    simp only [comps, List.mem_cons, List.not_mem_nil, or_false] at hv
+    rcases hv with rfl | rfl | rfl | rfl | rfl | rfl <;> assumption
+  simp only [hnz, this, Bool.not_true, Bool.false_eq_true, ↓reduceIte]
+  exact toTextPos_units y mo d h mi s hy hmo hd hh hmi hs
+
+theorem toText_units_neg (y mo d h mi s : Int) (hy : y ≤ 0) (hmo : mo ≤ 0) (hd : d ≤ 0) (hh : h ≤ 0)
+    (hmi : mi ≤ 0) (hs : s ≤ 0) (hnz : (Dur.units y mo d h mi s).nonzero = true) :
+    toText (.units y mo d h mi s) = '-' :: desig (ofv (-y)) (ofv (-mo)) (ofv (-d)) (tOf (-h) (-mi) (-s)) := by
+  unfold toText
+  have : fullyNegLoop (comps (.units y mo d h mi s)) false = true := by
+    rw [fnl_nonpos]
+    · simp only [Dur.nonzero, Bool.or_eq_true, bne_iff_ne, ne_eq] at hnz
+      simp only [comps, List.any_cons, List.any_nil, Bool.or_false, Bool.false_or, Bool.or_eq_true,
+        decide_eq_true_eq]
+      omega
+    · intro v hv
+      simp only [comps, List.mem_cons, List.not_mem_nil, or_false] at hv
+      rcases hv with rfl | rfl | rfl | rfl | rfl | rfl <;> assumption
+  simp only [hnz, this, Bool.not_true, Bool.false_eq_true, ↓reduceIte, List.cons.injEq, true_and]
+  have e : (Dur.units y mo d h mi s).abs = .units (-y) (-mo) (-d) (-h) (-mi) (-s) := by
+    simp only [Dur.abs, Dur.units.injEq]; omega
+  rw [e]
+  exact toTextPos_units _ _ _ _ _ _ (by omega) (by omega) (by omega) (by omega) (by omega) (by omega)
+
+theorem toTextPos_weeks (w : Int) (hw : 0 ≤ w) : toTextPos (.weeks w) = desigW (natDigits w.natAbs) := by
+  show replaceDot _ = _
+  have : intText w = natDigits w.natAbs := by unfold intText; rw [if_neg (by omega)]
+  rw [this]
+  apply replaceDot_id
+  intro hm
+  simp only [List.mem_cons, List.mem_append, List.not_mem_nil, or_false] at hm
+  rcases hm with hm | hm | hm
+  · exact absurd hm (by decide)
+  · exact absurd (natDigits_digs _ _ hm) (by decide)
+  · exact absurd hm (by decide)
+
+theorem toText_weeks_pos (w : Int) (hw : 0 < w) : toText (.weeks w) = desigW (natDigits w.natAbs) := by
+  unfold toText
+  have h1 : (Dur.weeks w).nonzero = true := by simp [Dur.nonzero]; omega
+  have h2 : fullyNegLoop (comps (.weeks w)) false = false := by
+    simp only [comps, fullyNegLoop]; rw [if_pos hw]
+  simp only [h1, h2, Bool.not_true, Bool.false_eq_true, ↓reduceIte]
+  exact toTextPos_weeks w (by omega)
+
+theorem toText_weeks_neg (w : Int) (hw : w < 0) : toText (.weeks w) = '-' :: desigW (natDigits w.natAbs) := by
+  unfold toText
+  have h1 : (Dur.weeks w).nonzero = true := by simp [Dur.nonzero]; omega
+  have h2 : fullyNegLoop (comps (.weeks w)) false = true := by
+    simp only [comps, fullyNegLoop]; rw [if_neg (by omega), if_pos hw]
+  simp only [h1, h2, Bool.not_true, Bool.false_eq_true, ↓reduceIte, List.cons.injEq, true_and]
+  have e : (Dur.weeks w).abs = .weeks (-w) := by simp only [Dur.abs, Dur.weeks.injEq]; omega
+  rw [e, toTextPos_weeks (-w) (by omega)]
+  congr 2
+  omega
+
 end IsoDT.Lemmas.DurText
